@@ -96,6 +96,10 @@ def findObj (m : Receiver.St) (n : Receiver.Name) : Option (Receiver.Stream × B
   | some x => some (x, true)
   | none => (m.gone.find? (fun x => x.si == n.1 && x.inc == n.2)).map fun x => (x, false)
 
+def regStr (m : Receiver.St) : String :=
+  let ids := ((m.streams.map fun x => x.si.toNat).toArray.qsort (· < ·)).toList
+  if ids.isEmpty then "-" else joinWith "," (ids.map toString)
+
 def stLine (m : Receiver.St) : String :=
   let objs := m.objs.filterMap (findObj m)
   let held := objs.filterMap fun (x, reg) =>
@@ -104,7 +108,7 @@ def stLine (m : Receiver.St) : String :=
   let ack := if m.ackState == 0 then "idle" else if m.ackState == 1 then "imm" else "delay"
   s!"cum={m.pq.cum.toNat} size={m.pq.size} gaps={fmtGaps (RecvQ.gaps m.pq)} dups={m.pq.dups.length} ack={ack} " ++
   s!"timer={b2s m.timer.isRunning} rwnd={(Receiver.credit m).toNat} held={if held.isEmpty then "-" else joinWith "," held} ctr={ctr} " ++
-  s!"ns={m.streams.length} accq={m.acceptQ.length} abort={b2s m.willSendAbort} state={m.state.toNat} now={m.timer.now / 1000000}"
+  s!"ns={m.streams.length} reg={regStr m} accq={m.acceptQ.length} abort={b2s m.willSendAbort} state={m.state.toNat} now={m.timer.now / 1000000}"
 
 def fmtOut : Receiver.Out → String
   | .abort => s!"ABORT:{Gen.protocolViolation}"
